@@ -1,8 +1,9 @@
 """C19 -- relay connection pools stay within bounds and strand no request.
 
-PoolLab (vf/poollab.py): the real StaticSmtpRelay / StaticLmtpRelay / HttpRelay with their real pool
-clients, RelayPool and BlockingDeque; 1..12 concurrent relay.attempt(envelope, 0) callers arriving in
-seeded bursts; a scripted next hop (vf.downstream.Downstream on socketpairs handed over through the
+PoolLab (vf/poollab.py): the real StaticSmtpRelay / StaticLmtpRelay / HttpRelay / MxSmtpRelay (one pool per
+destination, stub resolver) with their real pool clients, RelayPool and BlockingDeque; 1..30 concurrent
+relay.attempt(envelope, n) callers arriving in seeded bursts, some of which stop waiting (killed / own Timeout),
+relay.kill() with attempts in flight; a scripted next hop (vf.downstream.Downstream on socketpairs handed over through the
 documented socket_creator argument; a loopback HTTP server for HttpRelay) that refuses connects, closes at
 scripted stages, pushes 421 on an idling connection, fails single transactions, answers slowly, and holds
 connects / replies on gates which the harness releases in a seeded order.
@@ -22,6 +23,13 @@ Judged offline from the records:
                 in that very transaction (client-made timeout replies are the legitimate uncertain case)
  (g) ALIGNMENT  every reply is stamped by the next hop with the stage it answers; the reply slimta recorded for a
                 command must be the reply to that command (a reused connection whose reply stream is off by one)
+ (h) KILL       RelayPool.kill() returns without raising, and every attempt that was queued or in flight still
+                gets an answer (clause (c) applied to the state after kill())
+ (i) QUIESCENT  when every caller has its answer or has left and no client is busy: no request left in a queue, no
+                finished client left in a pool, no running client outside its pool, no next-hop connection left open
+                by a client greenlet that has ended
+ (j) ONCE       the next hop accepts the message of one attempt() in at most one transaction; the result slot of an
+                attempt is not written twice with different kinds of outcome
 """
 import re
 import random
@@ -38,12 +46,19 @@ LEVEL_TEXT = ('Real StaticSmtpRelay, StaticLmtpRelay and HttpRelay pools (pool_s
               'hop with refused connects, closes at scripted stages, 421 pushed on idle connections, per-transaction '
               '4xx/5xx, slow replies, and gates at connect / QUIT / end-of-data / idle released in seeded order '
               '(callers arriving while a client is connecting or exiting), one-at-a-time "trickle" arrivals that meet '
-              'idling clients, and self-timed callers aimed at the instant a client\'s idle timer expires. Held = none of the six oracle clauses '
+              'idling clients, and self-timed callers aimed at the instant a client\'s idle timer expires. Audit strata: '
+              'MxSmtpRelay with 2..8 recipient domains resolving (stub resolver; MX / A-only / forced / failing; TTL 0 with '
+              'rotating answers = expiry) to 1..5 destinations, each with its own pool of the configured size (bound judged '
+              'per destination address at socket_creator); callers that give up while queued or in flight (killed, or '
+              'waiting under their own Timeout); RelayPool.kill() called with attempts queued and in flight at every '
+              'stage; pools of 4/5/8 with bursts of 12..30; a next hop that goes silent at RSET / QUIT. Held = none of the oracle clauses '
               'violated on the schedules reported in the evidence (distinct interleavings counted); not a proof over '
               'all interleavings. Idle expiry is real-time (0.03 s), so which caller meets an expiring client varies '
               'between replays.')
 LEVEL_NOTE = ('Trusted: vf.downstream.Downstream / HttpDown as independent observers (own parsers, own counters), '
-              'pass-through observers (CountingDeque, Observed* relay subclasses) that only record, gevent.idle() '
+              'pass-through observers (CountingDeque, CountingResult installed as slimta.relay.pool.AsyncResult, '
+              'Observed* relay subclasses, MxSmtpRelay.new_static_relay override, stub pycares channel through the '
+              'documented DNSResolver.channel hook) that only record, gevent.idle() '
               'quiescence detection, stranding predicates evaluated only in stable states and confirmed after the '
               'idle timeout. Schedule control only via burst arrival, caller-side timers and gate release order. '
               'HttpRelay has no socket_creator: slimta.relay.http.get_connection is wrapped during a run so that the '
@@ -52,22 +67,33 @@ LEVEL_NOTE = ('Trusted: vf.downstream.Downstream / HttpDown as independent obser
               'HttpRelay findings were re-confirmed over real TCP against gevent.pywsgi (see reproducer).')
 TECHNIQUE = ('runtime monitoring: boundary records (next-hop connection/transaction log, reply tags, deque hooks) '
              'judged by a deterministic offline oracle; invariant at a hook for the deque; gated schedule exploration')
-RULE = ('case = (mode smtp|lmtp|http, pool_size, idle_timeout, ncallers, fault mix, pipelining, arrival, seed); 40% '
+RULE = ('case = (mode smtp|lmtp|http|mx, pool_size, idle_timeout, ncallers, fault mix, pipelining, arrival, seed); 40% '
         'free configurations, 60% focused strata (server-timeout requeue incl. unbounded pools, reset after failed '
         'transactions, callers racing exiting/connecting clients); fault '
         'decisions are a pure hash of (seed, connection, transaction, stage); the harness plan (bursts, gate releases, '
         'naps) is drawn from the seed. non-trivial = bounded pool with more callers than pool_size and >= 1 applied '
-        'fault or idle expiry; distinct by (mode, pool_size, idle, ncallers, fault mix)')
+        'fault or idle expiry; distinct by (mode, pool_size, idle, ncallers, fault mix, audit stratum)')
 ASSUMPTIONS = ['in the "late" stratum the relay runs with command_timeout 0.06 s and the next hop answers 0.15 s late: '
                'client-made timeout results are expected there and are not judged as foreign/failed-though-accepted',
-               'RelayPool.kill() and MxSmtpRelay (per-destination static relays) are outside the explored workload',
+               'MxSmtpRelay.kill() is the no-op of the Relay base class and is not called; kill() is explored on the '
+               'three RelayPool subclasses; what kill() has to do with requests that are still queued is left open '
+               '(served by a respawned client or failed): only "kill() returns, every caller gets an answer" is judged',
+               'a caller that gave up is owed nothing; its abandoned request may still be delivered (counted)',
                'slimta command/connect timeouts (4 s) never fire: every scripted delay / gate hold is far shorter, '
-               'except the HttpRelay request timeout which is scripted to fire deliberately',
+               'except the HttpRelay request timeout which is scripted to fire deliberately, the "stall" stratum '
+               '(command_timeout 0.06 s against a next hop that is silent at RSET / QUIT or late at end-of-data) and '
+               'cases with an unserialisable envelope (command_timeout 0.3 s: the QUIT after the failure is sent inside '
+               'DATA and never answered); if a loaded machine makes one fire elsewhere the caller gets a client-made '
+               'timeout result, which no clause judges as wrong',
                'a transaction that ended with an accepted end-of-data (even if some RCPTs were refused) is not a '
                'failed transaction; failed = MAIL refused, no RCPT accepted, DATA refused, or end-of-data refused '
                '(LMTP: for any recipient)',
                'live connection = open at both ends (a connection the next hop has already closed does not count)']
-REQUIRED_HITS = ['reply-alignment-checked', 'late-rset-with-followers-queued', 'bound-observed', 'results-attributed', 'quiescence-judged', 'deque-invariant-checked',
+REQUIRED_HITS = ['deque-mutators-checked', 'unexpected-client-exception-attributed', 'mx-bound-observed', 'mx-several-destinations', 'mx-destination-shared-by-domains',
+                 'caller-gave-up-while-queued', 'caller-gave-up-in-flight', 'kill-with-attempts-in-flight', 'kill-judged',
+                 'quiescent-state-judged', 'client-death-with-work-queued', 'single-transmission-checked',
+                 'result-slot-writes-checked',
+                 'reply-alignment-checked', 'late-rset-with-followers-queued', 'bound-observed', 'results-attributed', 'quiescence-judged', 'deque-invariant-checked',
                  'reset-after-failure-checked', 'reuse', 'idle-expiry', 'requeue', 'respawn-after-last-exit',
                  'delivered-crosschecked']
 SHARDS = {'quick': 12, 'thorough': 16}
@@ -116,6 +142,65 @@ def gen_cases(tier, seed, shard, nshards):
             case['http_timeout'] = 0.03 if 'timeout' in mix else None
         if idx % nshards == shard:
             yield case
+    # ---- audit strata (own PRNG stream: the cases above stay what they were)
+    extra = 420 if tier == 'quick' else 5600
+    rx = random.Random('c19x-%d' % seed)
+    for j in range(extra):
+        idx = total + j
+        stratum = rx.choice(['kill', 'kill', 'giveup', 'giveup', 'mx', 'mx', 'big', 'stall'])
+        mode = rx.choice(['smtp', 'smtp', 'lmtp', 'http'])
+        pool_size = rx.choice([1, 1, 2, 2, 3, None])
+        idle = rx.choice([None, 0.03, 0.03])
+        ncallers = rx.randint(3, 10)
+        extra_kw = {}
+        if stratum == 'giveup' and rx.random() < 0.25:
+            mode = 'mx'
+        if stratum == 'mx':
+            mode = 'mx'
+        kinds = HTTP_KINDS if mode == 'http' else SMTP_KINDS
+        mix = set(k for k in kinds if k != 'gates' and rx.random() < 0.35)
+        if rx.random() < 0.65:
+            mix.add('gates')
+        if stratum == 'kill':           # relay.kill() while attempts are queued / in flight at every stage
+            extra_kw['kill_after'] = rx.randint(1, 8)
+        elif stratum == 'giveup':       # callers killed while waiting in attempt(), or waiting under a Timeout
+            extra_kw['giveup'] = rx.choice([0.3, 0.5, 0.7])
+            ncallers = rx.randint(4, 12)
+        elif stratum == 'big':          # bursts far larger than a larger pool
+            pool_size, ncallers = rx.choice([4, 5, 8]), rx.randint(12, 30)
+        elif stratum == 'stall':        # the next hop goes silent at RSET / QUIT (connection stays open)
+            mode = rx.choice(['smtp', 'lmtp'])
+            mix = (set(k for k in SMTP_KINDS if rx.random() < 0.3) - {'gates'}) | {'stall', 'txn'}
+            if rx.random() < 0.5:       # ... or accepts the message and answers the end-of-data too late
+                mix.add('lateeod')
+            pool_size, ncallers = rx.choice([1, 2, None]), rx.randint(3, 8)
+            extra_kw['cmd_timeout'] = LATE_CMD_TIMEOUT
+        if mode == 'mx':                # per-destination pools of the MX relay
+            extra_kw.update(ndomains=rx.randint(2, 8), nhosts=rx.randint(1, 5), rotate=rx.random() < 0.4,
+                            forced=rx.choice([0.0, 0.2, 0.4]))
+            ncallers = rx.randint(4, 16)
+            if rx.random() < 0.3:
+                mix.add('dnsfail')
+            if stratum == 'mx' and rx.random() < 0.25:
+                extra_kw['giveup'] = 0.3
+        if stratum in ('big', 'giveup', 'mx') and rx.random() < 0.4:
+            mix.add('badenv')           # an envelope that makes the client raise an unexpected exception
+        arrival = 'trickle' if rx.random() < 0.15 else 'bursty'
+        case = {'stratum': stratum, 'arrival': arrival, 'mode': mode, 'pool_size': pool_size, 'idle': idle,
+                'ncallers': ncallers, 'mix': sorted(mix), 'pipelining': rx.random() < 0.7,
+                'seed': seed * 1000003 + 500000 + j}
+        case.update(extra_kw)
+        if mode == 'http':
+            case['http_timeout'] = 0.03 if 'timeout' in mix else None
+        elif 'badenv' in mix and 'cmd_timeout' not in case:
+            case['cmd_timeout'] = 0.3   # the client's QUIT after the failure goes unanswered (sent inside DATA)
+        if idx % nshards == shard:
+            yield case
+    # ---- the BlockingDeque itself: every public mutator, blocking poppers
+    for j in range(48 if tier == 'quick' else 800):
+        nops = rx.randint(10, 60)
+        if j % nshards == shard:
+            yield {'stratum': 'deque', 'mode': 'deque', 'nops': nops, 'seed': seed * 1000003 + 900000 + j}
 
 
 # ------------------------------------------------------------------------------- the oracle
@@ -169,11 +254,17 @@ def judge(lab, out, R):
     R.hit('bound-observed')
     srv_max = lab.ds.max_live if lab.ds is not None else lab.http.max_live
     if lab.pool_size:
+        if mode == 'mx':
+            R.hit('mx-bound-observed')      # lab.max_open is the maximum over the destinations (host, port)
         if lab.max_open > lab.pool_size:
             w = lab.bound_witness or {}
-            viol('bound-exceeded/%s/client-spawned-by-%s' % (mode, w.get('last_origin')),
-                 '%d next-hop connections open at once with pool_size=%d' % (lab.max_open, lab.pool_size), w)
-        elif srv_max > lab.pool_size:
+            how = 'client-spawned-by-%s' % w.get('last_origin')
+            if w.get('pools_for_this_destination', 1) > 1:
+                how = 'several-pools-for-one-destination'
+            viol('bound-exceeded/%s/%s' % (mode, how),
+                 '%d next-hop connections to one destination open at once with pool_size=%d'
+                 % (lab.max_open, lab.pool_size), w)
+        elif srv_max > lab.pool_size and mode != 'mx':
             R.count('server-side-count-lagged-behind-client-close')
 
     # ---- (b) own result, (f) safety
@@ -192,8 +283,48 @@ def judge(lab, out, R):
                 ok = set(r for r in t['rcpts_accepted'] if t['eod'].get(r))
                 if ok and t['marker']:
                     accepted_in[t['marker']].append((dc.n, n, ok))
+    else:
+        for hc in lab.http.conns:
+            for n, t in enumerate(hc.txns):
+                if t['accepted'] and t['marker']:
+                    accepted_in[t['marker']].append((hc.n, n, set(t['rcpts'])))
+    # ---- one attempt transmits its envelope once (a request handed back / taken twice would deliver twice)
+    R.hit('single-transmission-checked')
+    for mk, where in accepted_in.items():
+        if len(where) > 1:
+            viol('envelope-transmitted-twice/%s' % mode,
+                 'the next hop accepted the message of one attempt() in more than one transaction',
+                 {'marker': mk, 'accepted_in': [(a, b, sorted(r)) for a, b, r in where]})
+    # ---- a result slot belongs to one attempt and is written once
+    for c in lab.callers:
+        sets = getattr(c.request[0], 'sets', None) if c.request else None
+        if sets is None:
+            continue
+        R.hit('result-slot-writes-checked')
+        if len(sets) > 1:
+            if len(set(sets)) > 1:
+                viol('result-slot-written-twice/%s/%s' % (mode, '-then-'.join(sets[:2])),
+                     'the result of one attempt was written more than once, with a different kind of outcome',
+                     {'caller': c.marker, 'writes': sets})
+            else:
+                R.count('result-slot-written-again-with-same-kind')
     for c in lab.callers:
         if not c.done:
+            continue
+        if c.gave_up:
+            R.count('caller-gave-up')
+            if accepted_in.get(c.marker):
+                R.count('abandoned-request-delivered-anyway')
+            continue
+        # an envelope that cannot be serialised makes the client raise an unexpected exception: that failure goes
+        # to the caller of that envelope (as it is, or wrapped in a relay error) and to nobody else
+        got = str(c.crash if c.crash is not None else c.error if c.error is not None else '')
+        if 'flatten failed for [' in got:
+            R.hit('unexpected-client-exception-attributed')
+            if not c.bad_envelope or ('[%s]' % c.marker) not in got:
+                viol('foreign-result/%s/unexpected-exception' % mode,
+                     'attempt() raised the unexpected exception another envelope had caused',
+                     {'caller': c.marker, 'got': got[:200]})
             continue
         if c.crash is not None:
             R.count('attempt-raised-non-relay-exception')
@@ -258,7 +389,7 @@ def judge(lab, out, R):
                         foreign = 'transaction of %s' % t['sender']
                 elif t['sender'] != [c.sender]:
                     foreign = 'transaction of %s' % t['sender']
-            if foreign is None and where == 'rcpt' and '<' in text and '@d.test>' in text:
+            if foreign is None and where == 'rcpt' and '<' in text and '.test>' in text:
                 a = text[text.index('<') + 1:text.index('>')]
                 if a != rcpt:
                     foreign = 'reply about recipient %s stored for %s' % (a, rcpt)
@@ -284,25 +415,73 @@ def judge(lab, out, R):
             if why == 'request-in-nobodys-hands':
                 if h is None:
                     cause = 'never-taken'
+                elif lab.kill is not None and isinstance(h.value, gevent.GreenletExit):
+                    cause = 'client-killed-by-relay-kill-without-setting-result'
+                elif lab.kill is not None and isinstance(h.exception, AssertionError):
+                    # killed before its connection existed: _disconnect() trips over its own assert (kill() walks
+                    # the live pool set, so its victims can be clients added after the call began)
+                    cause = 'client-killed-by-relay-kill-while-connecting-without-setting-result'
                 elif h.exception is not None:
                     cause = 'client-died-without-setting-result/' + _exc_class(h.exception)
                 else:
                     cause = 'client-exited-without-setting-result'
             elif why == 'queued-but-no-client':
                 cause = 'last-client-left-without-respawn'
+            elif why == 'queued-while-only-finished-clients-occupy-the-pool':
+                cause = 'finished-client-never-removed'
             else:
-                q = lab.relay.queue
+                q = c.pool.queue
                 cause = 'semaphore-out-of-step' if q.sema.counter != len(q) else 'clients-not-woken'
             mech = 'stranded/%s/%s/%s' % (mode, why, cause)
             if mech in seen:
                 continue
             seen.add(mech)
             viol(mech, 'caller blocked in attempt() for ever: %s' % why,
-                 {'caller': c.marker, 'pool': len(lab.relay.pool), 'queue': len(lab.relay.queue),
+                 {'caller': c.marker, 'pool': len(c.pool.pool), 'queue': len(c.pool.queue),
+                  'destination': c.pool._dest, 'kill': None if lab.kill is None else lab.kill['inflight'],
                   'holder_exception': repr(getattr(h, 'exception', None)), 'crashes': lab.crashes[-3:],
                   'blocked_callers': [b.marker for b in lab.blocked()], 'events_tail': lab.events[-14:]})
     elif out['watchdog']:
         R.inconclusive('watchdog: callers still blocked while clients were busy')
+    elif out['quiesce_watchdog']:
+        R.inconclusive('watchdog: clients (or relay.kill()) still busy after every caller had its answer')
+
+    # ---- (h) relay.kill() with attempts queued / in flight
+    if lab.kill is not None:
+        R.hit('kill-judged')
+        e = lab.kill.get('error')
+        if e is not None:
+            viol('kill-raised/%s/%s' % (mode, type(e).__name__),
+                 'RelayPool.kill() raised instead of ending the pool\'s clients',
+                 {'error': repr(e)[:200], 'clients_at_kill': lab.kill['clients'], 'in_flight': lab.kill['inflight'],
+                  'queued': lab.kill['queued'], 'events_tail': lab.kill.get('events_tail')})
+
+    # ---- (i) the quiescent state: every caller answered (or gone), no client busy, idle timeouts elapsed
+    if not out['stranded'] and not out['watchdog'] and not out['quiesce_watchdog']:
+        R.hit('quiescent-state-judged')
+        for f in out['final']:
+            if f['queue_left']:
+                who = 'no-client-left' if not f['pool'] else 'clients-asleep-or-finished'
+                viol('quiescent/%s/request-left-in-queue/%s' % (mode, who),
+                     'a request stays queued for ever although no caller and no client is active any more',
+                     dict(f, events_tail=lab.events[-14:],
+                          gave_up=[c.marker for c in lab.callers if c.gave_up]))
+            if f['dead_in_pool']:
+                viol('quiescent/%s/finished-client-still-in-pool' % mode,
+                     'a finished client greenlet still occupies a slot of the pool', dict(f))
+            if lab.pool_size and f['pool'] > lab.pool_size:
+                viol('quiescent/%s/more-clients-than-pool-size' % mode, 'pool holds more clients than pool_size',
+                     dict(f))
+            if f['sleeping'] and not case['idle'] and mode != 'http':
+                R.count('client-left-sleeping-in-poll-without-idle-timeout', f['sleeping'])
+        if out['live_outside_pool']:
+            viol('quiescent/%s/live-client-not-in-pool' % mode,
+                 'a running client greenlet is not a member of its pool (not counted against the bound)',
+                 {'n': out['live_outside_pool']})
+        if out['leaked_sockets']:
+            viol('quiescent/%s/socket-left-open-by-finished-client' % mode,
+                 'a next-hop connection is still open although the client greenlet that opened it has ended',
+                 {'connections': out['leaked_sockets'], 'events_tail': lab.events[-14:]})
 
     # ---- (d) one message at a time, reset before reuse
     if lab.ds is not None:
@@ -352,7 +531,22 @@ def judge(lab, out, R):
     return V
 
 
+def run_deque_case(case, R):
+    breaks, stats = P.deque_ops(case)
+    R.eval(case['nops'])
+    R.hit('deque-mutators-checked', stats['checks'])
+    for k, v in stats.items():
+        R.count('deque:' + k, v)
+    for b in breaks[:1]:        # the operation after which it first went wrong; everything later is a consequence
+        mech = 'deque-invariant/direct/%s/%s' % (b['op'], b['what'].replace(' ', '-').replace('!=', 'differs-from'))
+        R.violation(mech, 'BlockingDeque: %s after %s' % (b['what'], b['op']), dict(b, later_breaks=len(breaks) - 1))
+    R.observe('config', ('deque', case['nops'], case['seed']))
+    R.nontrivial(('deque', case['nops'] // 10, stats['popper-waiting-on-empty-deque'] > 0, stats['op:clear'] > 0))
+
+
 def run_case(case, R):
+    if case['mode'] == 'deque':
+        return run_deque_case(case, R)
     lab = P.PoolLab(case)
     try:
         out = lab.run()
@@ -363,8 +557,16 @@ def run_case(case, R):
         R.hit('requeue', lab.cnt['requeue'])
         R.hit('respawn-after-last-exit', lab.cnt['respawn'])
         R.hit('late-rset-with-followers-queued', lab.cnt['late-rset-with-followers-queued'])
+        for k in ('caller-gave-up-while-queued', 'caller-gave-up-in-flight', 'kill-with-attempts-in-flight',
+                  'client-death-with-work-queued'):
+            R.hit(k, lab.cnt[k])
+        if case['mode'] == 'mx':
+            R.hit('mx-several-destinations', 1 if len(lab.pools) > 1 else 0)
+            R.hit('mx-destination-shared-by-domains', lab.shared_destinations())
+            R.count('mx:pools', len(lab.pools))
         for k, v in lab.cnt.items():
-            if k.startswith(('fault:', 'gate:', 'idle-expiry-', 'race:', 'snipe', 'late-')):
+            if k.startswith(('fault:', 'gate:', 'idle-expiry-', 'race:', 'snipe', 'late-', 'death:', 'giveup:',
+                             'kill:', 'mx:')):
                 R.count(k, v)
         if case['idle'] and out['open_left'] and not out['stranded']:
             R.count('connections-still-open-after-idle-timeout', out['open_left'])
@@ -373,6 +575,8 @@ def run_case(case, R):
         R.count('connections', len(lab.ds.conns) if lab.ds is not None else len(lab.http.conns))
         R.count('client-greenlet-crashes', len(lab.crashes))
         key = (case['mode'], case['pool_size'], case['idle'], case['ncallers'], tuple(case['mix']))
+        if case.get('stratum'):
+            key += (case['stratum'],)
         R.observe('config', key)
         R.observe('interleaving', lab.signature())
         nfault = sum(v for k, v in lab.cnt.items() if k.startswith('fault:'))
